@@ -180,3 +180,24 @@ func SymLenBytes(name string, max int) []byte {
 // SameF64 reports whether two float64 values are the same value (bit pattern;
 // NaN equals NaN). Under the executor identical terms fold to true.
 func SameF64(a, b float64) bool { return math.Float64bits(a) == math.Float64bits(b) }
+
+// SymSet16 returns an arbitrary set of uint16. Natively the members below n are
+// taken from the replay vector (name_<i> != 0).
+func SymSet16(name string, n int) map[uint16]struct{} {
+	m := map[uint16]struct{}{}
+	for i := 0; i < n; i++ {
+		if model[fmt.Sprintf("%s_%d", sanitize(name), i)] != 0 {
+			m[uint16(i)] = struct{}{}
+		}
+	}
+	return m
+}
+
+// SetSnapshot16 returns an independent copy of a set.
+func SetSnapshot16(m map[uint16]struct{}) map[uint16]struct{} {
+	c := make(map[uint16]struct{}, len(m))
+	for k := range m {
+		c[k] = struct{}{}
+	}
+	return c
+}
